@@ -19,6 +19,15 @@ def main():
         if c is None or c.get("not_applicable"):
             na.append({"property_id": pid, "reason": (c or {}).get("not_applicable", "no static rule built yet for this property")})
             continue
+        text = c["text"]
+        ev = os.path.join(HERE, "evidence", "%s.json" % pid)
+        if os.path.exists(ev):
+            try:
+                per = json.load(open(ev))["coverage"].get("per_rule", {})
+                if per:
+                    text += " Rules decided on every run (full text of each in RULES.md and in the evidence file): %s." % ", ".join(sorted(per))
+            except Exception:
+                pass
         checks.append({
             "property_id": pid,
             "quick_cmd": "%s check.py %s --tier quick" % (PY, pid),
@@ -26,7 +35,7 @@ def main():
             "evidence_file": "/verif/evidence/%s.json" % pid,
             "replay_cmd_template": "%s check.py %s --replay {path}" % (PY, pid),
             "engine": "vf",
-            "level_claimed": {"category": "other", "text": c["text"], "design_ref": "DESIGN.md §3 %s" % pid},
+            "level_claimed": {"category": "other", "text": text, "design_ref": "DESIGN.md §3 %s" % pid},
             "level_note": c["note"],
             "technique": c["technique"],
         })
